@@ -285,3 +285,15 @@ Proof.
   exists [LStart; LBg 0; LBg 0; LBg 0; LBg 0; LFire; LBg 0; LBg 0; LBg 0; LCancel; LBg 0; LBg 0].
   eexists. eexists. split; [vm_compute; reflexivity | vm_compute; reflexivity].
 Qed.
+
+(** On the extracted (fixed) program the hypotheses are satisfiable and the interesting paths run:
+    a disciplined schedule in which the second start is picked by the running select BEFORE the
+    cancellation (served in place), the timer then fires, the elapse is seen and a third timer is
+    handed out. *)
+Example disciplined_run_exists : exists s,
+  run timer_prog true (init timer_prog)
+    [LBg 0; LBg 0; LStart; LBg 0; LBg 0; LBg 0; LBg 0; LBg 0; LCancel; LStart; LBg 1;
+     LBg 0; LBg 0; LBg 0; LBg 0; LBg 0; LBg 0; LBg 0; LFire; LBg 0; LBg 0; LBg 0; LBg 0; LObserve;
+     LStart; LBg 0; LBg 0; LBg 0; LBg 0; LBg 0; LBg 0; LBg 0; LBg 0]
+  = Some (s, [OStartRet; OCancelRet; OStartRet; OElapsed; OSeen; OStartRet]).
+Proof. eexists. vm_compute. reflexivity. Qed.
